@@ -3,6 +3,7 @@ package redirect
 import (
 	"net/http"
 	"net/url"
+	stdpath "path"
 	"regexp"
 	"strings"
 
@@ -95,6 +96,15 @@ var vOffsiteScheme = regexp.MustCompile("^[\\x00-\\x20]*[A-Za-z]([A-Za-z0-9+.-]|
 func vh_C06_rel() {
 	v := NewValidator(nil)
 	s := ndString("redirect")
+	if k := ndChoice("known-confusing-target", len(vConfusing)+1); k > 0 {
+		// concrete targets known to confuse URL parsers, decided on the same obligations plus
+		// where net/http's redirect normalisation (path cleaning) and the browser take them
+		s = vConfusing[k-1]
+		if v.IsValidRedirect(s) {
+			verifAssert("C06.rel.lands-on-origin-after-redirect-normalisation", !vLandsOffOrigin(s))
+		}
+		verifReach("known-vector")
+	}
 	ok := v.IsValidRedirect(s)
 	if ok {
 		verifReach("accepted")
@@ -166,4 +176,32 @@ func vh_C06_chain_converse() {
 			verifReach("prefix-lookalike") // /oauth2-docs, /oauth2.html, /oauth2 itself
 		}
 	}
+}
+
+var vConfusing = []string{
+	"/#/../\\evil.example", "/a/../\\evil.example", "/./\\evil.example", "/a/..//evil.example", "/\t/evil.example",
+	"/ /evil.example", "/%2f/evil.example", "/%5cevil.example", "/x?y=/../\\evil.example", "/x#//evil.example",
+	"/.//evil.example", "/..//evil.example", "/a/%2e%2e//evil.example", "/\\evil.example", "//evil.example",
+	"/\n/evil.example", "/;/../\\evil.example", "/a/.\\evil.example", "/ok/path", "/ok?rd=//x", "/ok#frag",
+}
+
+// vLandsOffOrigin: where the browser ends up after http.Redirect wrote the Location for target s:
+// net/http cleans the path part (everything before the first '?') of a scheme-less target, the
+// browser drops tabs and line breaks and reads a leading pair of (back)slashes as an authority
+func vLandsOffOrigin(s string) bool {
+	loc := s
+	if u, err := url.Parse(s); err == nil && u.Scheme == "" && u.Host == "" {
+		p, q := s, ""
+		if i := strings.Index(s, "?"); i != -1 {
+			p, q = s[:i], s[i:]
+		}
+		trailing := strings.HasSuffix(p, "/")
+		p = stdpath.Clean(p)
+		if trailing && !strings.HasSuffix(p, "/") {
+			p += "/"
+		}
+		loc = p + q
+	}
+	loc = strings.ReplaceAll(strings.ReplaceAll(strings.ReplaceAll(loc, "\t", ""), "\n", ""), "\r", "")
+	return vOffsiteSlashes.MatchString(loc) || vOffsiteScheme.MatchString(loc)
 }
